@@ -1270,6 +1270,62 @@ def _newton(model: Model, rep):
                  (bad[0].lineno if bad else fn.lineno))
 
 
+def _normals_at_facet_points(model, rep):
+    """normals(X, tind, find, t2f) maps the reference normal of the local
+    facet with DF(X)^-T: X has to be a point *of that facet* (in the cell's
+    reference coordinates).  For an affine cell any point will do, for a
+    bilinear / trilinear / second-order cell DF away from the facet belongs
+    to another side of the cell and the 'normal' points elsewhere.  Every
+    call site under skfem/ must derive X from the facet (the pulled-back
+    facet quadrature of FacetBasis, the reference midpoints of the local
+    facets) - a constant point array (np.zeros(...)) is the reference
+    origin, which lies on at most some of the facets."""
+    R2 = "C10-R2"
+    n = 0
+    for fn in model.all_functions():
+        if not fn.path.startswith("skfem/") or fn.name == "normals":
+            continue
+        defs = {}
+        for x in ast.walk(fn.node):
+            if isinstance(x, ast.Assign) and len(x.targets) == 1 and \
+                    isinstance(x.targets[0], ast.Name):
+                defs[x.targets[0].id] = x.value
+        for c in ast.walk(fn.node):
+            if not (isinstance(c, ast.Call) and isinstance(
+                    c.func, ast.Attribute) and c.func.attr == "normals"
+                    and len(c.args) >= 3):
+                continue
+            n += 1
+            X = c.args[0]
+            seen = 0
+            while isinstance(X, ast.Name) and X.id in defs and seen < 6:
+                X, seen = defs[X.id], seen + 1
+            const = any(isinstance(y, ast.Call) and src(y.func) in (
+                "np.zeros", "np.ones", "np.full", "np.empty")
+                for y in ast.walk(X)) and not any(
+                isinstance(y, ast.Attribute) and y.attr in (
+                    "invF", "facets", "refdom", "brefdom")
+                for y in ast.walk(X))
+            cons = f"{fn.short()}:normals-at-facet-points"
+            if const:
+                rep.fail(R2, fn.path, fn.short(), cons,
+                         f"'{src(c)[:60]}' evaluates the normals at the "
+                         f"constant reference point '{src(X)[:40]}', not at "
+                         f"a point of the facet: for a non-affine cell "
+                         f"(quadrilateral, hexahedron, second-order) "
+                         f"DF there belongs to another side of the cell - "
+                         f"two trapezoids sharing an inclined facet get the "
+                         f"orientation flag of the opposite normal",
+                         c.lineno)
+            else:
+                rep.ok(R2, cons, "normals evaluated at points derived from "
+                       "the facet")
+    if n < 2:
+        raise AnalysisError(f"only {n} call sites of mapping.normals found "
+                            f"(FacetBasis, Mesh.facets_satisfying confirmed "
+                            f"by hand)")
+
+
 def run(model: Model, rep, tier: str) -> None:
     rep.rule("C10-R1", "determinants / inverses / surface factors are the "
              "Leibniz / adjugate / cross-product identities; maps send "
@@ -1295,6 +1351,7 @@ def run(model: Model, rep, tier: str) -> None:
            lambda: _affine_algebra(model, rep, refdoms),
            lambda: _iso_algebra(model, rep),
            lambda: _refdom_normals(rep, refdoms),
+           lambda: _normals_at_facet_points(model, rep),
            lambda: _normals_method(model, rep, refdoms, AFF,
                                    "MappingAffine"),
            lambda: _normals_method(model, rep, refdoms, ISO,
@@ -1312,6 +1369,11 @@ def run(model: Model, rep, tier: str) -> None:
 _A, _I, _R = ("skfem/mapping/mapping_affine.py",
               "skfem/mapping/mapping_isoparametric.py", "skfem/refdom.py")
 MUTANTS = [
+    ("facets oriented by the normal at the reference origin",
+     ("skfem/mesh/mesh.py",
+      "            normals = mapping.normals(mids[:, loc][:, :, None],",
+      "            normals = mapping.normals(np.zeros((self.dim(), 1)),"),
+     "C10-R2"),
     ("Newton inverse starts at the centre of the unit box",
      ("skfem/mapping/mapping_isoparametric.py",
       "        X = np.zeros(x.shape) + self.elem.refdom.p.mean(axis=1)"
